@@ -1,7 +1,57 @@
 ------------------------------ MODULE MiniCLaws ------------------------------
-(* TLC checks the algebraic laws of the integer model (MiniCTypes) and of the *)
-(* program format; run with an empty configuration.                           *)
+(* Algebraic laws of the integer model (MiniCTypes), checked by TLC on a grid   *)
+(* of values; they guard against a wrong spec.  Kept out of MiniCTypes because  *)
+(* TLC evaluates every constant definition of a loaded module at startup.       *)
 EXTENDS MiniCTypes, TLC
+-----------------------------------------------------------------------------
+(* Laws of the definitions above, checked by TLC on a grid of values (they  *)
+(* guard against a wrong spec; see MiniCLaws.cfg).                          *)
+Grid == {-40000, -32769, -32768, -32767, -300, -129, -128, -2, -1, 0, 1, 2, 3, 127, 128, 255, 256, 300, 32767, 32768,
+         65535, 65536, 70000, TMAX - 1, TMAX, -TMAX}
+SmallGrid == {-32768, -129, -128, -7, -2, -1, 0, 1, 2, 5, 127, 128, 255, 32767}
+Plats == {"p16", "p32"}
+
+LawConvIdempotent == \A pl \in Plats, ty \in IntTypes, v \in Grid :
+   LET c == Conv(pl, ty, v) IN c.s = "ok" => Conv(pl, ty, c.v) = c /\ c.v >= RMin(pl, ty) /\ c.v <= RMax(pl, ty)
+LawConvIdentityInRange == \A pl \in Plats, ty \in IntTypes, v \in Grid :
+   (RMin(pl, ty) <= v /\ v <= RMax(pl, ty)) => Conv(pl, ty, v) = Ok(v)
+LawConvCongruent == \A pl \in Plats, ty \in IntTypes, v \in {g \in Grid : Abs(g) <= 70000} :
+   Narrow(pl, ty) => (Conv(pl, ty, v).v - v) % Pow2(Bits(pl, ty)) = 0
+LawDivRem == \A a \in SmallGrid, b \in SmallGrid \ {0} :
+   /\ TruncDiv(a, b) * b + TruncRem(a, b) = a
+   /\ Abs(TruncRem(a, b)) < Abs(b)
+   /\ (TruncRem(a, b) # 0 => (TruncRem(a, b) < 0) = (a < 0))
+LawBitwise == \A a \in SmallGrid, b \in SmallGrid :
+   /\ BitAnd(a, b) + BitOr(a, b) = a + b
+   /\ BitXor(a, b) = BitOr(a, b) - BitAnd(a, b)
+   /\ BitAnd(a, Inv(a)) = 0 /\ BitOr(a, Inv(a)) = -1 /\ BitXor(a, a) = 0
+   /\ BitAnd(a, b) = BitAnd(b, a) /\ BitAnd(a, -1) = a /\ BitOr(a, 0) = a
+LawMulMod == \A a \in {0, 1, 2, 255, 256, 257, 40000, 65535}, b \in {0, 1, 3, 255, 256, 1000, 32768, 65535} :
+   SafeMul(a, b) => MulMod(a, b, 16) = (a * b) % 65536
+LawPromote == \A pl \in Plats, ty \in IntTypes :
+   /\ Rank(Promote(pl, ty)) >= 3
+   /\ Common(pl, ty, ty) = Promote(pl, ty)
+   /\ \A t2 \in IntTypes : Common(pl, ty, t2) = Common(pl, t2, ty) /\ Rank(Common(pl, ty, t2)) >= 3
+LawKnownTypes ==
+   /\ Promote("p16", "ushort") = "uint" /\ Promote("p32", "ushort") = "int" /\ Promote("p16", "uchar") = "int"
+   /\ Common("p32", "uint", "long") = "long" /\ Common("p16", "uint", "long") = "long"
+   /\ Common("p32", "int", "uint") = "uint" /\ Common("p32", "ulong", "long") = "ulong"
+   /\ LitType("p16", 40000, "") = "long" /\ LitType("p32", 40000, "") = "int" /\ LitType("p16", 40000, "u") = "uint"
+LawShift == \A pl \in Plats, a \in {0, 1, 3, 255, 16384, 32767}, n \in {0, 1, 7, 8, 14, 15} :
+   /\ Shift(pl, "uint", ">>", a, n).v = a \div Pow2(n)
+   /\ (Shift(pl, "int", "<<", a, n).s = "ok" => Shift(pl, "int", "<<", a, n).v = a * Pow2(n))
+   /\ Shift(pl, "int", "<<", -1, 1).s = "ub" /\ Shift(pl, "int", ">>", -5, 1) = Ok(-3)
+   /\ Shift(pl, "int", "<<", 1, Bits(pl, "int")).s = "ub"
+LawOverflow ==
+   /\ Arith("p16", "int", "+", 32767, 1).s = "ub" /\ Arith("p16", "uint", "+", 65535, 1) = Ok(0)
+   /\ Arith("p16", "uint", "*", 65535, 65535) = Ok(1) /\ Arith("p16", "int", "/", -32768, -1).s = "ub"
+   /\ Arith("p32", "int", "+", TMAX, 1).s = "abandon" /\ Arith("p16", "long", "*", 65536, 65536).s = "abandon"
+   /\ Arith("p32", "int", "/", 7, 0).s = "ub" /\ Arith("p32", "int", "/", -7, 2) = Ok(-3) /\ Arith("p32", "int", "%", -7, 2) = Ok(-1)
+   /\ Unary("p16", "int", "-", -32768).s = "ub" /\ Unary("p16", "uint", "-", 1) = Ok(65535) /\ Unary("p16", "uint", "~", 0) = Ok(65535)
+   /\ Conv("p32", "schar", 200) = Ok(-56) /\ Conv("p32", "uchar", -1) = Ok(255) /\ Conv("p32", "uint", -1).s = "abandon"
+
+TypeLaws == /\ LawConvIdempotent /\ LawConvIdentityInRange /\ LawConvCongruent /\ LawDivRem /\ LawBitwise /\ LawMulMod
+            /\ LawPromote /\ LawKnownTypes /\ LawShift /\ LawOverflow
 ASSUME TypeLaws
 ASSUME PrintT(<<"LAWS", "ok">>)
 =============================================================================
